@@ -184,7 +184,12 @@ def uesc_answer(checker, text):
 def run_check(checker, ref_ent, l10n_ent, android):
     """-> (canonical result, raw issues or None, model request payload, recorded log)"""
     cache_in = cache_of(checker)
-    reference = [] if checker.reference is None else [[canon(e.raw_val) for e in checker.reference.values()]]
+    if checker.reference is None:
+        reference = []
+    elif cache_in:
+        reference = [[]]        # known_entities answers from the cache: the values are not read again
+    else:
+        reference = [[canon(e.raw_val) for e in checker.reference.values()]]
     raw = []
     with Recording() as rec:
         try:
@@ -454,11 +459,16 @@ class FileCase:
 
 
 class Batch:
-    """collects cases of one suite: implementation results, model requests, recorded documents"""
+    """collects cases of one suite: implementation results, model requests, recorded documents;
+    the model is consulted every FLUSH cases so that memory stays bounded"""
+    FLUSH = 2500
 
-    def __init__(self, chk, suite):
-        self.chk, self.suite = chk, suite
+    def __init__(self, chk, suite, model=None):
+        self.chk, self.suite, self.model = chk, suite, model
         self.cases, self.impl, self.reqs = [], [], []
+        self.n = 0
+        self.bad = []                               # (case, impl, model) of disagreements
+        self.last = None
         self.docs = {}                              # document -> sax verdict (0 ok, 1 error)
         self.values = []                            # (declared, key, value, doc3 ok, doc4 ok or None)
         self.fourdocs = []                          # (request, four documents)
@@ -468,6 +478,8 @@ class Batch:
         self.cases.append(desc)
         self.impl.append(res)
         self.reqs.append((0, payload))
+        self.n += 1
+        self.last = (desc, res)
         self.chk.evaluations += 1
         if raw:
             self.chk.distinct.add((self.suite, json.dumps(desc, sort_keys=True, default=str)))
@@ -476,20 +488,36 @@ class Batch:
         # the localized documents: the last one or two of the log
         if raw is not None and len(log) >= 2:
             first_l10n = 2 if (len(log) >= 3 and log[0][1] is None) else 1
-            if log[0][1] is None and len(log) == 4:
-                self.fourdocs.append(((8, payload[:2] + payload[3:5]), [canon(x[0]) for x in log]))
+            if log[0][1] is None and len(log) == 4 and len(self.fourdocs) < 8000 and len(payload[1]) < 2:
+                ref_payload = payload[1] if not payload[0] else [[]]
+                self.fourdocs.append(((8, [payload[0], ref_payload, payload[3], payload[4]]),
+                                      [canon(x[0]) for x in log]))
             l10n_docs = log[first_l10n:]
             d3 = l10n_docs[0]
             declared = re.findall(r'<!ENTITY (\S+) "">', d3[0])
             d4 = l10n_docs[1] if len(l10n_docs) > 1 else None
             self.values.append((declared, l.key, l.raw_val, int(d3[1] is None),
                                 None if d4 is None else int(d4[1] is None)))
+        if len(self.reqs) >= self.FLUSH:
+            self.flush()
         return res, raw
 
-    def finish(self, model, describe=None):
-        if model and self.cases:
-            outs = model.call(self.reqs)
-            self.chk.correspond(self.suite, self.cases, self.impl, outs, describe=describe)
+    def flush(self):
+        if self.model and self.reqs:
+            outs = self.model.call(self.reqs)
+            for c, a, b in zip(self.cases, self.impl, outs):
+                if a != b and len(self.bad) < 50:
+                    self.bad.append((c, a, b))
+                elif a != b:
+                    self.bad.append((None, 1, 0))
+        self.cases, self.impl, self.reqs = [], [], []
+
+    def finish(self):
+        self.flush()
+        if self.model and self.n:
+            ok = self.n - len(self.bad)
+            self.chk.correspond(self.suite, [b[0] for b in self.bad] + [None] * ok,
+                                [b[1] for b in self.bad] + [0] * ok, [b[2] for b in self.bad] + [0] * ok)
 
 
 # ---------------------------------------------------------------- num / css ---
@@ -545,7 +573,7 @@ def run(chk, runner_ok):
     fourdocs = []
 
     # ---- DTD-CHECK: grammar values ------------------------------------------------------
-    b = Batch(chk, "DTD-CHECK")
+    b = Batch(chk, "DTD-CHECK", model)
     target = chk.n(3000, 40000)
     # the fixed probes: the two hazards (see hazards()) and plain cases
     probes = [
@@ -567,7 +595,7 @@ def run(chk, runner_ok):
         res, raw = b.add(info, checker, rents[0], lents[0])
         judge_grammar(chk, info, raw, l10n_nodes, ref_nodes, fc.known(), fc.q)
     nfiles = 0
-    while len(b.cases) < target:
+    while b.n < target:
         n = rng.randint(1, 6)
         fc = FileCase(rng, n)
         rtext, ltext = fc.ref_text(), fc.l10n_text()
@@ -589,21 +617,20 @@ def run(chk, runner_ok):
                 kinds = sorted({("E:" if s == "error" else "W:") + c for s, _, _, c in raw})
                 chk.hist("grammar_issue_kinds", "+".join(kinds) or "none")
                 chk.hist("l10n_value_length", min(len(lents[i].raw_val) // 10 * 10, 100))
-    chk.notes.append(f"DTD-CHECK: {len(b.cases)} (reference entity, localized entity) pairs from {nfiles} "
+    chk.notes.append(f"DTD-CHECK: {b.n} (reference entity, localized entity) pairs from {nfiles} "
                      "generated file pairs; 85% with set_reference, the rest with the checker's fallback "
                      "to the reference value's own names")
-    k = len(b.cases) // 2
-    chk.sample({"suite": "DTD-CHECK", "case": b.cases[k], "impl": b.impl[k]})
-    b.finish(model)
+    chk.sample({"suite": "DTD-CHECK", "case": b.last[0], "impl": b.last[1]})
+    b.finish()
     all_docs.update(b.docs)
     all_values += b.values
     fourdocs += b.fourdocs
 
     # ---- DTD-CHECK-edits: every edit at every position ------------------------------------
-    b = Batch(chk, "DTD-CHECK-edits")
+    b = Batch(chk, "DTD-CHECK-edits", model)
     target = chk.n(3000, 40000)
     nvalues = 0
-    while len(b.cases) < target:
+    while b.n < target:
         fc = FileCase(rng, rng.randint(1, 3))
         i = rng.randrange(len(fc.l10n_nodes))
         fc.l10n_nodes[i] = gen_value(rng, fc.pool + UNKNOWN_POOL[:2], fc.q, maxn=3)
@@ -629,15 +656,14 @@ def run(chk, runner_ok):
                 judge_broken(chk, info, raw, name)
                 chk.hist("edit", name)
     chk.notes.append(f"DTD-CHECK-edits: {len(EDITS)} edits at every position of {nvalues} grammar values "
-                     f"(length <= 40): {len(b.cases)} cases")
-    k = len(b.cases) // 2
-    chk.sample({"suite": "DTD-CHECK-edits", "case": b.cases[k], "impl": b.impl[k]})
-    b.finish(model)
+                     f"(length <= 40): {b.n} cases")
+    chk.sample({"suite": "DTD-CHECK-edits", "case": b.last[0], "impl": b.last[1]})
+    b.finish()
     all_docs.update(b.docs)
     all_values += b.values
 
     # ---- DTD-CHECK-numcss --------------------------------------------------------------------
-    b = Batch(chk, "DTD-CHECK-numcss")
+    b = Batch(chk, "DTD-CHECK-numcss", model)
     seqs = [list(p) for n in range(1, chk.n(3, 4) + 1) for p in itertools.product(NUM_TOKENS[:-1], repeat=n)]
     seqs = [s for s in seqs if "".join(s).strip() == "".join(s) and "".join(s)]
     vals = sorted({"".join(s): s for s in seqs}.items())
@@ -648,16 +674,22 @@ def run(chk, runner_ok):
     for rs, rt in refs:
         for ls, lt in l10ns:
             ncases.append((rs, rt, ls, lt))
-    rtext = "".join(dtd_entity("n%d" % i, c[0], '"') + "\n" for i, c in enumerate(ncases))
-    ltext = "".join(dtd_entity("n%d" % i, c[2], '"') + "\n" for i, c in enumerate(ncases))
-    rents, lents = parse_dtd(rtext), parse_dtd(ltext)
-    if len(rents) != len(ncases) or len(lents) != len(ncases):
-        raise RuntimeError("num/css .dtd did not parse into its entities")
-    checker = get_checker()
-    checker.set_reference(rents)
-    for i, (rs, rt, ls, lt) in enumerate(ncases):
+    def pairs_in_files(cases, per_file=400):
+        """(case, reference entity, localized entity, checker) with at most per_file entities a file"""
+        for lo in range(0, len(cases), per_file):
+            part = cases[lo:lo + per_file]
+            rtext = "".join(dtd_entity("n%d" % i, c[0], '"') + "\n" for i, c in enumerate(part))
+            ltext = "".join(dtd_entity("n%d" % i, c[1], '"') + "\n" for i, c in enumerate(part))
+            rents, lents = parse_dtd(rtext), parse_dtd(ltext)
+            if len(rents) != len(part) or len(lents) != len(part):
+                raise RuntimeError("num/css .dtd did not parse into its entities")
+            checker = get_checker()
+            checker.set_reference(rents)
+            for i, c in enumerate(part):
+                yield c, rents[i], lents[i], checker
+    for (rs, ls, rt, lt), rent, lent, checker in pairs_in_files([(c[0], c[2], c[1], c[3]) for c in ncases]):
         info = {"ref": rs, "l10n": ls}
-        res, raw = b.add(info, checker, rents[i], lents[i])
+        res, raw = b.add(info, checker, rent, lent)
         if raw is None:
             chk.fail("check-raises", info, res)
             continue
@@ -699,16 +731,9 @@ def run(chk, runner_ok):
             lv = rng.choice(["wide", "12", "30em", "", "auto"])
             expect_error = True
         ccases.append((rv, lv, rspec, lspec, expect_error))
-    rtext = "".join(dtd_entity("c%d" % i, c[0], '"') + "\n" for i, c in enumerate(ccases))
-    ltext = "".join(dtd_entity("c%d" % i, c[1], '"') + "\n" for i, c in enumerate(ccases))
-    rents, lents = parse_dtd(rtext), parse_dtd(ltext)
-    if len(rents) != len(ccases) or len(lents) != len(ccases):
-        raise RuntimeError("css .dtd did not parse into its entities")
-    checker = get_checker()
-    checker.set_reference(rents)
-    for i, (rv, lv, rspec, lspec, expect_error) in enumerate(ccases):
+    for (rv, lv, rspec, lspec, expect_error), rent, lent, checker in pairs_in_files(ccases):
         info = {"ref": rv, "l10n": lv}
-        res, raw = b.add(info, checker, rents[i], lents[i])
+        res, raw = b.add(info, checker, rent, lent)
         if raw is None:
             chk.fail("check-raises", info, res)
             continue
@@ -738,10 +763,10 @@ def run(chk, runner_ok):
             chk.hist("css_verdict", "same" if same else "warning")
     chk.notes.append(f"DTD-CHECK-numcss: {len(ncases)} number/length pairs ({len(refs)} references x "
                      f"{len(l10ns)} localizations over token sequences), {len(ccases)} CSS spec pairs")
-    b.finish(model)
+    b.finish()
 
     # ---- DTD-CHECK-wild: token soup, junk in the reference, exotic line breaks ----------------
-    b = Batch(chk, "DTD-CHECK-wild")
+    b = Batch(chk, "DTD-CHECK-wild", model)
     soup = ["&", "<", ">", "%", ";", "&foo;", "&unk;", "&amp;", "&#38;", "&#x41;", "&#0;", "<b>", "</b>",
             "<b", "/>", " a='1'", "a", " ", "\n", "\r\n", "\x85", " ", "\x0b", "é", "�", "]]>",
             "<!--", "-->", "<![CDATA[", "?>", "<?pi ", "12", "em", "width:1px", ";", "\\", "\\u00", "x",
@@ -785,14 +810,14 @@ def run(chk, runner_ok):
             b.add({"ref_file": rtext, "l10n_file": ltext, "key": l.key,
                    "set_reference": checker.reference is not None, "android": checker.processContent},
                   checker, rmap[l.key], l, android=checker.processContent)
-            chk.hist("wild_outcome", "raise" if b.impl[-1][0] else
-                     ("error" if any(i[0] for i in b.impl[-1][1][0]) else "no-error"))
-    b.finish(model)
+            chk.hist("wild_outcome", "raise" if b.last[1][0] else
+                     ("error" if any(i[0] for i in b.last[1][1][0]) else "no-error"))
+    b.finish()
     all_docs.update(b.docs)
     all_values += b.values
 
     # ---- DTD-CHECK-android -----------------------------------------------------------------------
-    b = Batch(chk, "DTD-CHECK-android")
+    b = Batch(chk, "DTD-CHECK-android", model)
     qalpha = ["a", " ", "\\", "'", '"', "\\'", '\\"', "\\u0041", "\\u00", "é", "&apos;", "&quot;",
               "&#39;", "<b>", "</b>", "\n", "\\\\"]
     acases = []
@@ -829,7 +854,7 @@ def run(chk, runner_ok):
             got = sorted(int(p) for s, p, m, c in raw if c == "android" and s == "error")
             if got != want:
                 chk.fail("android-quotes", info, {"got": got, "expected": want})
-    b.finish(model)
+    b.finish()
 
     # ---- the four documents ---------------------------------------------------------------------------
     if model and fourdocs:
@@ -868,7 +893,9 @@ def run(chk, runner_ok):
     if len(items) > chk.n(12000, 120000):
         items = rng.sample(items, chk.n(12000, 120000))
     if model:
-        outs = model.call([(6, [canon(d)]) for d, _ in items])
+        outs = []
+        for lo in range(0, len(items), 4000):
+            outs += model.call([(6, [canon(d)]) for d, _ in items[lo:lo + 4000]])
         kept = [(d, v, o) for (d, v), o in zip(items, outs) if o != 2]
         unsup = len(items) - len(kept)
         chk.notes.append(f"XML: {len(items)} documents, {unsup} outside the fragment xml_doc supports "
